@@ -40,14 +40,11 @@ def rd64 (b : Bytes) (off : Nat) : Nat := leVal (rdBytes b off 8)
 def wrBytes (b : Bytes) (off : Nat) (src : Bytes) : Bytes :=
   b.take off ++ (src.take (b.length - off)) ++ b.drop (off + src.length)
 
-/-- `bswap_32` on a 32-bit value. -/
-def bswap32 (x : Nat) : Nat :=
-  ((x >>> 24) &&& 0xff) ||| ((x >>> 8) &&& 0xff00) ||| ((x <<< 8) &&& 0xff0000) |||
-    ((x <<< 24) &&& 0xff000000)
+/-- `bswap_32`: reverse the four bytes of a 32-bit value. -/
+def bswap32 (x : Nat) : Nat := leVal (leBytes 4 x).reverse
 
-/-- `bswap_64` on a 64-bit value. -/
-def bswap64 (x : Nat) : Nat :=
-  (bswap32 (x % 2 ^ 32)) <<< 32 ||| bswap32 ((x >>> 32) % 2 ^ 32)
+/-- `bswap_64`: reverse the eight bytes of a 64-bit value. -/
+def bswap64 (x : Nat) : Nat := leVal (leBytes 8 x).reverse
 
 def zeros (n : Nat) : Bytes := List.replicate n 0
 
